@@ -752,6 +752,80 @@ def shard_diff(st, wd, li):
                               lfile, rfile, ltext, rtext)
     st.sample({"tool": "yaml-diff", "lhs": ltext, "rhs": corpus.render(
         DIFF_DOCS[3]), "argv": ["--arrays=position"]})
+    if li == 0:
+        diff_index_family(st, wd)
+
+
+# streams of one to three documents; -L / -R each given or not: the report is
+# the library's for exactly the two documents named (an index left out names
+# the only document of a one-document source and is demanded otherwise)
+INDEX_STREAMS = [["a: 1\n"], ["a: 1\n", "a: 2\n"], ["a: 2\n", "a: 1\n"],
+                 ["a: 1\n", "a: 2\n", "a: 3\n"], ["a: 3\n"]]
+
+
+def diff_index_family(st, wd):
+    lfile = os.path.join(wd, "li.yaml")
+    rfile = os.path.join(wd, "ri.yaml")
+    for lstream in INDEX_STREAMS:
+        ltext = "---\n" + "---\n".join(lstream)
+        cli.write(lfile, ltext)
+        for rstream in INDEX_STREAMS:
+            rtext = "---\n" + "---\n".join(rstream)
+            cli.write(rfile, rtext)
+            for lidx in [None] + list(range(len(lstream) + 1)):
+                for ridx in [None] + list(range(len(rstream) + 1)):
+                    for delivery in ("files", "rhs-stdin"):
+                        argv = ["--pathsep=."]
+                        if lidx is not None:
+                            argv.append("-L%d" % lidx)
+                        if ridx is not None:
+                            argv.append("--right-document-index=%d" % ridx)
+                        if delivery == "files":
+                            res = cli.run("yaml-diff", argv + [lfile, rfile])
+                        else:
+                            res = cli.run("yaml-diff", argv + [lfile, "-"],
+                                          stdin=rtext)
+                        case = {"tool": "yaml-diff", "lhs": ltext,
+                                "rhs": rtext, "argv": argv,
+                                "delivery": delivery, "family": "index"}
+                        note(st, "yaml-diff", res, ("index", lidx is None,
+                                                    ridx is None, delivery),
+                             "index")
+                        if crashed(st, "yaml-diff", res, case):
+                            continue
+                        lpick = lidx if lidx is not None else (
+                            0 if len(lstream) == 1 else None)
+                        rpick = ridx if ridx is not None else (
+                            0 if len(rstream) == 1 else None)
+                        if lpick is None or rpick is None or lpick >= len(
+                                lstream) or rpick >= len(rstream):
+                            # no document is named: refused, nothing reported
+                            if res.code in (0, None) or res.out:
+                                st.fail("yaml-diff|index|not-refused", case,
+                                        "an error status and no report",
+                                        "%r %r" % (res.code, res.out[:120]))
+                            continue
+                        ldoc = corpus.load(lstream[lpick])
+                        rdoc = corpus.load(rstream[rpick])
+                        differ = Differ(DifferConfig(
+                            corpus.LOG, SimpleNamespace()), corpus.LOG, ldoc)
+                        differ.compare_to(rdoc)
+                        blocks = []
+                        for e in differ.get_report():
+                            if e.action is not DiffActions.SAME:
+                                e.pathsep = PathSeparators.DOT
+                                blocks.append(str(e))
+                        want_out = "\n\n".join(blocks) + (
+                            "\n" if blocks else "")
+                        differs = lstream[lpick] != rstream[rpick]
+                        if (res.code == 0) == differs or res.code not in (0, 1):
+                            st.fail("yaml-diff|index|exit-status", case,
+                                    "0 iff documents %d and %d are equal "
+                                    "(differ=%s)" % (lpick, rpick, differs),
+                                    res.code)
+                        elif res.out != want_out:
+                            st.fail("yaml-diff|index|stdout", case,
+                                    want_out[:300], res.out[:300])
 
 
 # --------------------------------------------------------------- yaml-validate
